@@ -39,6 +39,8 @@ def behaviour_to_schedule(beh):
         t += 8
         if e0["k"] == "submit":
             steps.append({"at": t, "do": "submit", "q": e0["q"], "r": e0["r"], "con": bool(e0["con"]), "f": 0.0})
+            if len(emit) > 1 and emit[1]["k"] == "err":
+                steps[-1]["fault"] = 1  # SubmitRefused: the first datagram is refused inside sendmsg
         elif e0["k"] == "rx":
             s = {"at": t, "do": "rx", "r": e0["r"], "ty": e0["ty"]}
             tokq = {"t1": 1, "t2": 2, "t3": 3}.get(e0["tok"])
@@ -86,6 +88,10 @@ def random_schedule(rng):
         t += rng.choice([0, 0, 1, 5, 100, 3000])
         steps.append({"at": t, "do": "submit", "q": q, "r": r, "con": con, "f": rng.choice([0.0, 0.5, 1.0])})
         fate = rng.choice(["piggy", "sep", "sepcon", "nonresp", "rst", "lost", "dupresp", "wrongsrc", "deadtok", "ackonly"])
+        if rng.random() < 0.08:
+            # the kernel refuses the datagram inside sendmsg (no route, EPERM, ...): the error is reported
+            # synchronously, while the request is still being sent for the first time
+            steps[-1]["fault"] = 1
         on = {"q": q, "copy": rng.choice([1, 1, 2])}
         d = rng.choice([1, 3, 40, 700])
         other = (r % max(nrem, 2)) + 1
